@@ -125,11 +125,12 @@ PROPS = {
     ),
     'C04': dict(
         level='proof',
-        verus_units=['broker_service', 'broker_conn_state'],
+        verus_units=['broker_service', 'broker_conn_state', 'client_broker_subscriptions'],
         trusted_base=TB_VERUS + [
             'ConnectionId and the UUID cookie newtypes are opaque keys whose Hash/Eq obey vstd\'s key model '
             '(obeys_key_model axioms; justified by conn_id.rs / ids.rs deriving both from the same field)',
-            'vstd specifications of std HashMap / HashSet / hash_map::Entry',
+            'vstd specifications of std HashMap / HashSet / hash_map::Entry; assumed std specifications of '
+            'HashMap::get_mut and Entry::or_default (+ HashSet::default() is empty, derive(Default) of the client\'s Service)',
         ],
         assumptions=[
             'Broker::{subscribe_event, unsubscribe_event, subscribe_all_events, unsubscribe_all_events, '
@@ -138,8 +139,8 @@ PROPS = {
             'callers establish the preconditions (inv; serial not pending / pending for add/remove_function_call)',
         ],
         undecided_clauses=[
-            'emit_event fan-out loop and owner check (broker.rs); ConnectionState::is_subscribed_to_event (Option::map '
-            'closure has no spec) and ConnectionState::subscribe_event (Entry::or_default has no vstd spec)',
+            'emit_event fan-out loop and owner check (broker.rs); ConnectionState::is_subscribed_to_event and the '
+            'client\'s BrokerSubscriptions::emit (closure passed to Option::map has no spec)',
             'ServiceDestroyed notification once per subscribed connection (remove_service)',
             'client-side subscription bookkeeping (aldrin/src/client/*.rs)',
         ],
